@@ -41,7 +41,11 @@ if CHECK_ONLY and os.path.exists(dst0):
     tests_ok = meta.get("confirmed", False)
 else:
     sh(["git", "-C", "/repo", "worktree", "remove", "--force", wt])
-    rc, out = sh(["git", "-C", "/repo", "worktree", "add", "--detach", wt, "HEAD"])
+    for _try in range(6):
+        rc, out = sh(["git", "-C", "/repo", "worktree", "add", "--detach", wt, "HEAD"])
+        if rc == 0 and os.path.isdir(wt):
+            break
+        time.sleep(5)  # another process held the repository lock
     meta = {"property": pid, "seed": "%s_%s" % (pid, letter), "demo_location": demo_rel, "touched_crates": touched,
             "readme": readme[:3000], "repo_head": sh(["git", "-C", "/repo", "rev-parse", "--short", "HEAD"])[1].strip()}
     try:
